@@ -14,6 +14,8 @@ pub enum From_ {
     Sub(Box<Sel>, String),
     /// VALUES list: rows of values, alias
     Values(Vec<Vec<Value>>, String),
+    /// table function: name, arguments, alias
+    Func(String, Vec<X>, String),
 }
 
 impl From_ {
@@ -24,6 +26,7 @@ impl From_ {
             From_::SchemaTable(_, t, a) => a.as_deref().unwrap_or(t),
             From_::Sub(_, a) => a,
             From_::Values(_, a) => a,
+            From_::Func(_, _, a) => a,
         }
     }
 }
